@@ -432,6 +432,85 @@ pub fn new_target(w: i32, h: i32, init: &[u32]) -> DrawTarget {
     }
 }
 
+/// A short sequence of calls that leaves pixels, transform, clip stack and layer stack exactly as they were (C10):
+/// single-call checks run one of these just before the call under test, so that anything the library caches or
+/// forgets to reset between calls (path cursor, rasteriser edges, inverse transform, recycled buffers) shows up in
+/// the property whose call it corrupts. `sel` picks the sequence; two thirds of the values pick none.
+pub fn harmless_prelude(dt: &mut DrawTarget, sel: u32) {
+    let (w, h) = (dt.width(), dt.height());
+    let t = *dt.get_transform();
+    let white = Source::Solid(SolidSource { r: 255, g: 255, b: 255, a: 255 });
+    match sel % 24 {
+        0 => {
+            dt.push_layer(1.0);
+            dt.pop_layer();
+        }
+        1 => {
+            dt.push_clip_rect(irect(0, 0, w, h));
+            dt.pop_clip();
+        }
+        2 => {
+            // a clip path that ends away from where it started, without close
+            let mut pb = PathBuilder::new();
+            pb.move_to(w as f32 * 0.25, h as f32 * 0.75);
+            pb.line_to(w as f32 * 0.9, h as f32 * 0.5);
+            pb.quad_to(w as f32, 0.0, w as f32 * 0.5, 1.0);
+            dt.set_transform(&Transform::identity());
+            dt.push_clip(&pb.finish());
+            dt.pop_clip();
+            dt.set_transform(&t);
+        }
+        3 => {
+            // a fill wholly above the surface
+            let mut pb = PathBuilder::new();
+            pb.move_to(1.0, -30.0);
+            pb.line_to(w as f32 + 3.0, -20.0);
+            pb.line_to(2.0, -10.0);
+            dt.set_transform(&Transform::identity());
+            dt.fill(&pb.finish(), &white, &DrawOptions::new());
+            dt.set_transform(&t);
+        }
+        4 => {
+            // a stroke of width zero across the surface
+            let mut pb = PathBuilder::new();
+            pb.move_to(0.0, 0.0);
+            pb.line_to(w as f32, h as f32);
+            let st = StrokeStyle { width: 0.0, ..StrokeStyle::default() };
+            dt.set_transform(&Transform::identity());
+            dt.stroke(&pb.finish(), &white, &st, &DrawOptions::new());
+            dt.set_transform(&t);
+        }
+        5 => {
+            // a draw under a non-invertible transform, then the transform set back
+            dt.set_transform(&Transform::scale(0.0, 1.0));
+            dt.fill_rect(0.0, 0.0, w as f32, h as f32, &white, &DrawOptions::new());
+            dt.set_transform(&t);
+        }
+        6 => {
+            // a transparent layer group with content under a clip
+            dt.push_clip_rect(irect(1, 1, w - 1, h - 1));
+            dt.push_layer(0.0);
+            dt.set_transform(&Transform::identity());
+            dt.fill_rect(0.0, 0.0, w as f32, h as f32, &white, &DrawOptions::new());
+            dt.set_transform(&t);
+            dt.pop_layer();
+            dt.pop_clip();
+        }
+        8 => {
+            // a clear under an empty clip (the clipped, transform-swapping route of clear; nothing can change)
+            dt.push_clip_rect(irect(0, 0, 0, 0));
+            dt.clear(SolidSource { r: 255, g: 255, b: 255, a: 255 });
+            dt.pop_clip();
+        }
+        7 => {
+            // an empty surface transfer
+            let src = DrawTarget::new(2, 2);
+            dt.copy_surface(&src, irect(0, 0, 0, 0), IntPoint::new(0, 0));
+        }
+        _ => {}
+    }
+}
+
 pub fn apply(dt: &mut DrawTarget, op: &Op) {
     match op {
         Op::SetXf(x) => dt.set_transform(&to_transform(x)),
